@@ -56,6 +56,26 @@ def cases(thorough):
                 k = mk("200 OK", [[name, v], ["X-After", "1"]])
                 k["script"]["cl"] = "none"
                 out.append(k)
+    # ... nor be anything but a string, whatever the server could make of it (an int Content-Length, a bytes Date)
+    for name in ("Content-Length", "content-length", "CONTENT-LENGTH", "Date", "Server", "Content-Type", "Via"):
+        for v in NONSTR + [2, 2.0, True]:
+            k = mk("200 OK", [[name, v], ["X-After", "1"]])
+            k["script"]["cl"] = "none"
+            out.append(k)
+            k = mk("200 OK", [["X-First", "1"]], sr_twice={"status": "503 Later", "headers": [[name, v]]})
+            k["strs"] = {"status": rc.cp("503 Later"), "fields": [{"n": rc.cp(name), "v": rc.cp(v), "lname": name.lower()}]}
+            k["script"]["status"] = {"text": "503 Later", "code": 503}
+            k["script"]["cl"] = "none"
+            k["offending"] = [v]
+            out.append(k)
+    # repeated field names survive whatever the server does to its own fields (a file wrapper whose length differs from
+    # the declared Content-Length makes the server rewrite that field)
+    for kind in ("file", "file_noseek"):
+        for cl in ("larger", "smaller", "exact"):
+            k = mk("200 OK", [["Set-Cookie", "a=1"], ["Set-Cookie", "b=2"], ["Link", "<x>"], ["link", "<y>"], ["LINK", "<z>"], ["Warning", "199 - a"], ["Warning", "199 - b"]])
+            k["script"]["kind"] = kind
+            k["script"]["cl"] = cl
+            out.append(k)
     # exc_info re-call before any output: the second call's strings are the ones that count
     for bad in ["v\r\nX-Injected: 1", "v\nX", "v\rX", "fine"]:
         c = mk("200 OK", [["X-First", "1"]], sr_twice={"status": "503 Later", "headers": [["X-Second", bad]]})
